@@ -9,7 +9,7 @@ TRUST = "TLC 1.8 and the CommunityModules Json reader; the harness projection/wr
 
 CHECKS = {
     "C07": dict(cat="model_checking", ref="DESIGN 8/C07",
-                text="PySem.tla gives the supported subset a reference semantics over abstract values with an external oracle. TLC enumerates every oracle script of every generated program up to a depth bound (9 quick / 12 thorough); every complete script is executed in CPython (instrumented values) on the original function and on exec(unparse(SCFG2AST(restructured AST2SCFG(f)))); TLC replays every recorded execution through the semantics and compares the sequence of value-creating events and the outcome. Pipeline outcomes are judged too (explicit refusal allowed, internal error or non-compiling output is a violation). In addition (a) every accepted program's flat graph and generated code are abstracted to their control skeleton (opaque statement / test identities) and TLC explores their PRODUCT under all test outcomes to fix-point (Skeleton.tla): all decision paths of unbounded length. Real executions are bounded in script depth; data values abstract.",
+                text="PySem.tla gives the supported subset a reference semantics over abstract values with an external oracle. TLC enumerates every oracle script of every generated program up to a depth bound (9 quick / 11 thorough); every complete script is executed in CPython (instrumented values) on the original function and on exec(unparse(SCFG2AST(restructured AST2SCFG(f)))); TLC replays every recorded execution through the semantics and compares the sequence of value-creating events and the outcome. Pipeline outcomes are judged too (explicit refusal allowed, internal error or non-compiling output is a violation). In addition (a) every accepted program's flat graph and generated code are abstracted to their control skeleton (opaque statement / test identities) and TLC explores their PRODUCT under all test outcomes to fix-point (Skeleton.tla): all decision paths of unbounded length. Real executions are bounded in script depth; data values abstract.",
                 technique="TLC enumeration of behaviours of an executable TLA+ reference semantics (PySem.tla), replayed into the implementation, plus trace validation of the recorded executions"),
     "C08": dict(cat="model_checking", ref="DESIGN 8/C08",
                 text="Same reference semantics and scripts as C07; the third execution is a block-by-block interpreter over AST2SCFG's graph exactly as the property defines it (run the block's statements, two successors: evaluate the last expression, first successor if true; stop at a return); TLC compares events and outcome with PySem. Every operand is an oracle event, so side-effecting and raising operands are the default. In addition AstImpl.tla transcribes the front end itself: TLC checks conformance of the transcription with the real graphs and, for every program and script, that the lowered graph means what the reference semantics says (design level).",
